@@ -87,7 +87,18 @@ func runGio(c *Ctx) {
 			adv := false
 			for _, ev := range p.Events {
 				if ev.Kind == core.KAssign && ev.Var != nil && core.FieldName(ev.Var) == "ioseek.ReaderAtSeeker.offset" && ev.Tok == token.ADD_ASSIGN {
-					adv = strings.Contains(core.ExprString(ev.Rhs), "n")
+					// the amount is (a conversion of) the count the call returns
+					adv = false
+					var res0 *types.Var
+					if rs := d.Decl.Type.Results; rs != nil && len(rs.List) > 0 && len(rs.List[0].Names) > 0 {
+						res0, _ = d.Pkg.TypesInfo.Defs[rs.List[0].Names[0]].(*types.Var)
+					}
+					ast.Inspect(ev.Rhs, func(n ast.Node) bool {
+						if id, ok := n.(*ast.Ident); ok && res0 != nil && identVar(id, ev.Frame) == res0 {
+							adv = true
+						}
+						return true
+					})
 				}
 			}
 			if p.End == core.EndReturn {
@@ -108,8 +119,26 @@ func runGio(c *Ctx) {
 			for i, ev := range p.Events {
 				if isAtomicCall(ev, "Add") {
 					arg := core.ExprString(ev.Call.Args[0])
-					a.note("R15", name+"/adds-returned-count", ev.Pos, arg != "uint64(n)", "the total grows by the count n that is returned", "the total grows by "+arg+", not by the count n the call returns", p)
-					a.requireGuard("R15", name+"/adds-positive-count", g, i, false, lt("0", "n"), "adding to the total")
+					var res0 *types.Var
+					if rs := d.Decl.Type.Results; rs != nil && len(rs.List) > 0 && len(rs.List[0].Names) > 0 {
+						res0, _ = d.Pkg.TypesInfo.Defs[rs.List[0].Names[0]].(*types.Var)
+					}
+					isCount := false
+					if conv, ok := unparen(ev.Call.Args[0]).(*ast.CallExpr); ok && len(conv.Args) == 1 && res0 != nil {
+						// through helper parameters the count keeps its identity by the inlining alias
+						isCount = identVar(conv.Args[0], ev.Frame) == res0 || aliasOf(p, ev, conv.Args[0]) == res0
+					}
+					cnt := "?n"
+					if res0 != nil {
+						cnt = c.Role(res0)
+					}
+					if conv, ok := unparen(ev.Call.Args[0]).(*ast.CallExpr); ok && len(conv.Args) == 1 {
+						if v := identVar(conv.Args[0], ev.Frame); v != nil {
+							cnt = c.Role(v)
+						}
+					}
+					a.note("R15", name+"/adds-returned-count", ev.Pos, !isCount, "the total grows by the count that is returned", "the total grows by "+arg+", not by the count the call returns", p)
+					a.requireGuard("R15", name+"/adds-positive-count", g, i, false, lt("0", cnt), "adding to the total")
 				}
 			}
 		})
@@ -139,7 +168,7 @@ func runGio(c *Ctx) {
 							continue
 						}
 						a.note("R15", name+"/calls-saved-func/outside-section", ev.Pos, holdsLock(ev, lock), "the saved close function runs outside the critical section", "the close function runs while closeMtx is held", p)
-						a.requireGuard("R15", name+"/calls-saved-func/non-nil", g, i, false, fnot(eq(v.Name(), "nil")), "calling the saved close function")
+						a.requireGuard("R15", name+"/calls-saved-func/non-nil", g, i, false, fnot(eq(c.Role(v), "nil")), "calling the saved close function")
 					}
 				}
 				if p.End == core.EndReturn {
@@ -196,11 +225,11 @@ func runGio(c *Ctx) {
 				}
 				if ev.Kind == core.KCall && ev.Callee == nil && ev.Builtin == "" && len(pv) == 3 && identVar(ev.Call.Fun, ev.Frame) == pv[2] {
 					cbs++
-					a.requireGuard("R13c", name+"/callback-non-nil", g, i, false, fnot(eq(pv[2].Name(), "nil")), "calling the callback")
+					a.requireGuard("R13c", name+"/callback-non-nil", g, i, false, fnot(eq(c.Role(pv[2]), "nil")), "calling the callback")
 				}
 			}
 			if len(pv) == 3 {
-				cbNilKnown, _ = implies(g.litsBefore(len(p.Events), false), eq(pv[2].Name(), "nil"))
+				cbNilKnown, _ = implies(g.litsBefore(len(p.Events), false), eq(c.Role(pv[2]), "nil"))
 			}
 			if p.End == core.EndReturn && len(pv) == 3 {
 				ok := closes[pv[0].Name()] == 1 && closes[pv[1].Name()] == 1 && (cbs == 1 || cbs == 0 && cbNilKnown)
@@ -250,6 +279,7 @@ func runGio(c *Ctx) {
 					node               ast.Node
 				}
 				var cur *iter
+				okRole := "?ok"
 				flush := func(end int, pos token.Pos) {
 					if cur == nil {
 						return
@@ -286,7 +316,7 @@ func runGio(c *Ctx) {
 							if strings.Contains(s, "opaque:") && strings.Contains(s, "cmp(") && l.val == !strings.HasPrefix(s, "!") {
 								decided = true
 							}
-							if s == "F(ok)" && !l.val {
+							if s == "F("+okRole+")" && !l.val {
 								decided = strings.HasPrefix(fn, "Remove") || decided
 							}
 						}
@@ -299,7 +329,7 @@ func runGio(c *Ctx) {
 							}
 							if strings.HasPrefix(fn, "Remove") {
 								for _, l := range since {
-									if (l.f.String() == "F(ok)" && !l.val) || (l.f.String() == "!F(ok)" && l.val) {
+									if (l.f.String() == "F("+okRole+")" && !l.val) || (l.f.String() == "!F("+okRole+")" && l.val) {
 										decided = true
 									}
 								}
@@ -336,6 +366,15 @@ func runGio(c *Ctx) {
 					if cur == nil {
 						continue
 					}
+					if ev.Kind == core.KAssign && ev.Rhs != nil && ev.RhsIdx == 1 {
+						if ix, ok := unparen(ev.Rhs).(*ast.IndexExpr); ok {
+							if fv := fieldVar(ix.X, ev.Frame); fv != nil && core.FieldName(fv) == vals {
+								if v := identVar(ev.Lhs, ev.Frame); v != nil {
+									okRole = c.Role(v)
+								}
+							}
+						}
+					}
 					if ev.Kind == core.KAssign && ev.Rhs != nil {
 						ast.Inspect(ev.Rhs, func(n ast.Node) bool {
 							if sel, ok := n.(*ast.SelectorExpr); ok {
@@ -366,8 +405,10 @@ func runGio(c *Ctx) {
 					}
 					if l := g.lits[i]; l != nil {
 						s := l.f.String()
-						if s == "F(ok)" {
+						if s == "F("+okRole+")" {
 							cur.present, cur.absent = l.val, !l.val
+						} else if s == "!F("+okRole+")" {
+							cur.present, cur.absent = !l.val, l.val
 						}
 					}
 				}
@@ -567,7 +608,7 @@ func checkIndexes(c *Ctx, a *agg, name string, g *gpath, i int, e ast.Expr, para
 				continue
 			}
 			lits := g.litsBefore(i, false)
-			L := "len(" + param.Name() + ")"
+			L := "len(" + c.Role(param) + ")"
 			constSum := 0
 			var varTerms []string
 			for _, sx := range subs {
